@@ -708,8 +708,16 @@ func (s *Shaper) attach(t *Tok, keep func(*Tok) bool, markCov, baseCov coverage.
 	if ba.IsEmpty() {
 		return false, nil
 	}
-	if t.X != 0 || t.Y != 0 || cand.X != 0 || cand.Y != 0 {
-		s.undefined("%s: mark or base already carries an offset (set vs. add is not specified)", what)
+	// "positioning adds exactly the value-record and anchor adjustments": an offset the mark already has
+	// (from an earlier lookup) stays, the anchor adjustment is added to it.  Whether an offset of the
+	// glyph attached TO moves the mark along is not specified.
+	// For mark-to-mark attachment (GPOS 6) a later attachment conventionally replaces an earlier
+	// mark-to-base attachment of the same mark: set vs. add is left undefined there.
+	if cand.X != 0 || cand.Y != 0 {
+		s.undefined("%s: the glyph attached to already carries an offset (whether the mark follows it is not specified)", what)
+	}
+	if (t.X != 0 || t.Y != 0) && what == "GPOS6" {
+		s.undefined("%s: the mark already carries an offset (for mark-to-mark attachment set vs. add is not specified)", what)
 	}
 	dx := int(ba.X) - int(rec.X)
 	dy := int(ba.Y) - int(rec.Y)
